@@ -70,6 +70,20 @@ CHECKS = {
         'Completions are injected between two event-loop callbacks on the harness-owned loop; children are real launched processes gated by the harness.',
         'DESIGN.md section 3 C10',
     ),
+    'C07': (
+        'exploration',
+        'property-based testing: round-trip oracle (save, load, save = save; loaded accessors = original accessors) at every state entry and paused point, through three media and two loader configurations',
+        'Generated process programs (nested inputs, nested/dynamic outputs, wait msg/data, continuation args and kwargs over JSON scalars, nested containers, tuples and UUIDs; finished/unsuccessful/excepted/killed endings; pause/kill schedules) and workchain outlines are checkpointed at every ENTERED_STATE and every paused quiescent point; each checkpoint travels as deep copy, pickle and YAML into a fresh event loop and is saved again: bundles must be structurally identical (exceptions by type+args, traceback text ignored) and pid/state/raw_inputs/inputs/outputs/ctx/status/paused/creation_time/outcome accessors equal.',
+        'tblib absent (traceback text ignored as the statement allows). A workchain WAITING on live futures is not savable and is counted, not judged. The custom loader is given in both save and load contexts.',
+        'DESIGN.md section 3 C07',
+    ),
+    'C08': (
+        'exploration',
+        'property-based testing: metamorphic oracle (restored continuation chains = uninterrupted run), exhaustive over all single and double crash points of a catalogue plus Hypothesis-generated looping programs/outlines with up to 3 chained restores',
+        'The reference run is checkpointed at every state entry; for each chain of <=3 crash points the instance is abandoned, the checkpoint deserialised (pickle / deep copy / YAML) into a fresh event loop and world, continued with the remaining wake-up values, checkpointed again and so on; the concatenated step+predicate trace with arguments, outputs, ctx, final state and result must equal the reference: nothing re-executed, nothing skipped.',
+        'Steps depend only on persisted state (inputs, ctx, continuation arguments); every restore uses a fresh deserialisation; workchains here register no live awaitables.',
+        'DESIGN.md section 3 C08',
+    ),
 }
 
 PENDING = {f'C{n:02d}': 'check not built yet in this round (see DESIGN.md section 9 for the build order)' for n in range(1, 21)}
